@@ -136,8 +136,22 @@ static void err_case(Toks& tk, Out& out, Params params)
         return describe(
             [&]
             {
-              Phase more{ std::vector<Species>{ a, b, c, Species("Unused") } };
-              make_builder().SetSystem(System(SystemParameters{ .gas_phase_ = more })).SetReactions(reactions).SetIgnoreUnusedSpecies(false).Build();
+              if (pos % 2 == 0)
+              {
+                Phase more{ std::vector<Species>{ a, b, c, Species("Unused") } };
+                make_builder().SetSystem(System(SystemParameters{ .gas_phase_ = more })).SetReactions(reactions).SetIgnoreUnusedSpecies(false).Build();
+              }
+              else
+              {
+                // the reactions name as many species as the state holds, one of them a parameterised third body
+                // that is no state variable: "Unused" is still unused
+                Species m("M");
+                m.parameterize_ = [](const Conditions& cd) { return cd.air_density_; };
+                Phase more{ std::vector<Species>{ a, b, c, Species("Unused"), m } };
+                auto rx = reactions;
+                rx.push_back(Process(Process::Create().SetReactants({ a, m }).SetProducts({ Yields(b, 1) }).SetRateConstant(UserDefinedRateConstant({ .label_ = "k2" })).SetPhase(more)));
+                make_builder().SetSystem(System(SystemParameters{ .gas_phase_ = more })).SetReactions(rx).SetIgnoreUnusedSpecies(false).Build();
+              }
             });
       case 7: return describe([&] { state.SetConcentration(Species("Nope"), std::vector<double>{ 1.0, 2.0 }); });
       case 8: return describe([&] { state.SetConcentration(a, std::vector<double>{ 1.0, 2.0, 3.0 }); });
@@ -167,7 +181,11 @@ static void err_case(Toks& tk, Out& out, Params params)
               Matrix<double> m(3, 4, 0.0);
               m[1] = std::vector<double>{ 1.0, 2.0 };
             });
-      case 17: return describe([&] { Matrix<double> m(std::vector<std::vector<double>>{ { 1.0, 2.0 }, { 3.0 } }); (void)m; });
+      case 17:
+        // ragged rows; in the second variant the row lengths add up to a full 3 x 2 table
+        if (pos % 2 == 0)
+          return describe([&] { Matrix<double> m(std::vector<std::vector<double>>{ { 1.0, 2.0 }, { 3.0 } }); (void)m; });
+        return describe([&] { Matrix<double> m(std::vector<std::vector<double>>{ { 1.0, 2.0 }, { 3.0 }, { 4.0, 5.0, 6.0 } }); (void)m; });
       case 18: return describe([&] { (void)state.jacobian_.VectorIndex(0, 7, 0); });
       case 19:
         return describe(
@@ -185,7 +203,10 @@ static void err_case(Toks& tk, Out& out, Params params)
               VectorMatrix<double, 3> m(4, 3, 0.0);
               m[2] = std::vector<double>{ 1.0 };
             });
-      case 22: return describe([&] { VectorMatrix<double, 2> m(std::vector<std::vector<double>>{ { 1.0 }, { 2.0, 3.0 }, { 4.0 } }); (void)m; });
+      case 22:
+        if (pos % 2 == 0)
+          return describe([&] { VectorMatrix<double, 2> m(std::vector<std::vector<double>>{ { 1.0 }, { 2.0, 3.0 }, { 4.0 } }); (void)m; });
+        return describe([&] { VectorMatrix<double, 2> m(std::vector<std::vector<double>>{ { 1.0, 2.0 }, { 3.0 }, { 4.0, 5.0, 6.0 } }); (void)m; });
       case 23: return describe([&] { (void)SparseMatrix<double>::Create(3).WithElement(1, 5); });
       case 24: return describe([&] { state.SetCustomRateParameter("k0", 1.0); });
       case 25:
